@@ -131,6 +131,15 @@ def run(R):
         R.check(rej >= 1, 'C16.R2', 'is_grpc_web:default-false', site(ig), 'anything else is not grpc-web')
         ct = web.body('call::content_types::content_type')
         R.check(any((constdef(ct.origin(t['args'][1])) or '').endswith('CONTENT_TYPE') for bb, t in ct.calls(name='get')), 'C16.R2', 'reads-content-type-header', site(ct), 'content_type() reads CONTENT_TYPE')
+        # the classifier (is_grpc_web) and the decoder selector (Encoding::from_content_type) must read the header the same way: the
+        # raw value, compared exactly. Stripping parameters / trimming / case-folding in one of them lets a request be accepted as
+        # grpc-web-text while its body is passed on undecoded.
+        NORMALISERS = ('split', 'splitn', 'split_once', 'trim', 'trim_start', 'trim_end', 'to_lowercase', 'to_ascii_lowercase', 'eq_ignore_ascii_case', 'starts_with', 'strip_suffix', 'strip_prefix', 'find', 'rsplit', 'parse')
+        for nm_ in ('call::content_types::content_type', 'call::content_types::is_grpc_web', 'call::Encoding::from_content_type', 'call::Encoding::from_header'):
+            fb_ = web.body(nm_)
+            fam_ = family(web, fb_)
+            used = sorted({t_['name'] for m_ in fam_ for bb_, t_ in m_.calls() if t_.get('name') in NORMALISERS and 'str' in (t_.get('fn') or '') + (t_.get('self_ty') or '')})
+            R.check(not used, 'C16.R2', 'content-type-read-raw:%s' % nm_.split('::')[-1], site(fb_), '%s compares the content-type value exactly as sent (normalising calls: %r)' % (nm_.split('::')[-1], used))
         fh = web.body('call::Encoding::from_header')
         R.saw(fh)
         rows = decision_rows(fh, 0, writers_of(fh, 0))
@@ -189,6 +198,10 @@ def run(R):
                 if 'GrpcWebCall' in (t.get('fn') or ''):
                     okw = 'encoding' in show(c.origin(t['args'][1]))
         R.check(okw, 'C16.R3', 'response:body-wrapped-with-encoding', site(cp), 'res.map(|b| GrpcWebCall::response(b, encoding))')
+        # .. on every path: whatever the inner service answered (also application/grpc+proto) is translated; no pass-through return
+        maps_ = [bb_ for bb_, t_ in cp.calls(name='map') if any(strip_refs(cp.origin(a_))[:1] == ('agg',) and any(t2_.get('name') == 'response' and 'GrpcWebCall' in (t2_.get('fn') or '') for c_ in cl if c_.path == strip_refs(cp.origin(a_))[1].get('def') for bb2_, t2_ in c_.calls()) for a_ in t_['args'])]
+        okall = len(maps_) == 1 and all(cp.must_pass(0, rb_, maps_) for rb_ in cp.return_blocks())
+        R.check(okall, 'C16.R3', 'response:translated-on-every-path', site(cp), 'every path of coerce_response wraps the body with GrpcWebCall::response: %r' % okall)
         ins = [(bb, t) for bb, t in cp.calls(pat='HeaderMap', name='insert') if (constdef(cp.origin(t['args'][1])) or '').endswith('CONTENT_TYPE')]
         okc = len(ins) == 1 and term_contains(cp.origin(ins[0][1]['args'][2]), lambda x: is_call(x, name='to_content_type') and 'arg2' in show(x))
         R.check(okc, 'C16.R3', 'response:content-type=to_content_type(encoding)', site(cp), 'content-type := %s' % (show(cp.origin(ins[0][1]['args'][2]))[:100] if ins else None))
